@@ -1,11 +1,16 @@
 use std::collections::{HashMap, hash_map};
 use std::ops::Deref;
 use std::rc::Rc;
+#[cfg(not(folo_verif))]
 use std::sync::{Arc, RwLock};
+#[cfg(folo_verif)]
+use std::sync::Arc;
 use std::thread::{self, ThreadId};
 
 use simple_mermaid::mermaid;
 
+#[cfg(folo_verif)]
+use crate::verif_hook::RwLock;
 use crate::{BuildThreadIdHasher, ERR_POISONED_LOCK};
 
 /// A wrapper that manages linked instances of `T`, ensuring that only one
@@ -280,6 +285,7 @@ where
     pub fn __verif_thread_state_keys(&self) -> Vec<ThreadId> {
         self.family
             .thread_specific
+            .probe()
             .read()
             .expect(ERR_POISONED_LOCK)
             .keys()
@@ -335,8 +341,6 @@ where
 
         // First, an optimistic pass - let us assume it is already initialized for our thread.
         {
-            #[cfg(folo_verif)]
-            crate::verif_hook::point("ipt.map.read");
             let map = self.thread_specific.read().expect(ERR_POISONED_LOCK);
 
             if let Some(state) = map.get(&thread_id) {
@@ -353,8 +357,6 @@ where
         let instance: Rc<T> = Rc::new(self.family.clone().into());
 
         // Let us add the new instance to the map.
-        #[cfg(folo_verif)]
-        crate::verif_hook::point("ipt.map.write");
         let mut map = self.thread_specific.write().expect(ERR_POISONED_LOCK);
 
         // In some wild corner cases, it is perhaps possible that the arbitrary code in the
@@ -389,8 +391,6 @@ where
         // We need to clear the thread-specific state for this thread.
         let thread_id = thread::current().id();
 
-        #[cfg(folo_verif)]
-        crate::verif_hook::point("ipt.clear.write");
         let mut map = self.thread_specific.write().expect(ERR_POISONED_LOCK);
         map.remove(&thread_id);
     }
@@ -430,8 +430,6 @@ where
             return;
         }
 
-        #[cfg(folo_verif)]
-        crate::verif_hook::point("ipt.family_drop.read");
         let map = self.thread_specific.read().expect(ERR_POISONED_LOCK);
         assert!(
             map.is_empty(),
@@ -502,6 +500,16 @@ where
 unsafe impl<T> Sync for ThreadSpecificState<T> where T: linked::Object {}
 // SAFETY: See comments on type.
 unsafe impl<T> Send for ThreadSpecificState<T> where T: linked::Object {}
+
+/// Verification-only: the thread-specific state map is a scheduling point when locked.
+#[cfg(folo_verif)]
+impl<T> crate::verif_hook::LockLabels for HashMap<ThreadId, ThreadSpecificState<T>, BuildThreadIdHasher>
+where
+    T: linked::Object,
+{
+    const READ: &'static str = "ipt.map.read";
+    const WRITE: &'static str = "ipt.map.write";
+}
 
 #[cfg(test)]
 #[cfg_attr(coverage_nightly, coverage(off))]
